@@ -56,7 +56,8 @@ LEVEL = "exploration"
 ENGINE = "E4-audit+E6-reactorproc (self-contained in c54.py / c54_server.py)"
 TECHNIQUE = "runtime monitoring: audited filesystem paths of a live FTP server must stay inside the shell root"
 RULE = ("one case = one FTP session of ~30 commands generated from (seed, index): login as the "
-        "read-write user, anonymous, or (15 %) a second user whose home is nearly empty below an otherwise empty "
+        "read-write user, anonymous, (8 %) a third user whose home and the two directories above it do not exist (MKD of "
+        "the root itself and below it, every other verb), or (15 %) a second user whose home is nearly empty below an otherwise empty "
         "parent and whose sessions are MKD/RMD/DELE sequences that empty directories completely (some sessions first try commands unauthenticated or with a "
         "wrong password), then path commands whose arguments come from a hostile generator aware "
         "of a model of the working directory: exact relative/absolute-virtual escapes to sibling "
@@ -85,7 +86,8 @@ SHARDS = {"quick": 4, "thorough": 16}
 WATCHDOG_S = {"quick": 600, "thorough": 3000}
 FLOORS = {"sessions": 60, "opens_inside_root": 100, "listings_inside_root": 250, "mutations_inside_root": 250,
           "ev_os.mkdir": 100, "ev_os.remove": 30, "ev_os.rename": 50, "ev_os.rmdir": 30,
-          "sessions_sparse": 15, "rmdir_in_sparse_home": 60, "sessions_interleaved_with_another": 40,
+          "sessions_sparse": 15, "rmdir_in_sparse_home": 60, "sessions_ghost": 8,
+          "mkd_with_root_and_its_parents_missing": 80, "mkd_of_the_missing_root_itself": 40, "sessions_interleaved_with_another": 40,
           "faults_injected": 80, "commands_delivered_split": 1500, "stat_probes_inside_root": 3000, "escape_attempt_commands": 700, "escape_attempts_refused_5xx": 500, "transfers_completed": 100}
 READY = True
 
@@ -94,7 +96,10 @@ PAD = 12  # directory levels between the scratch top and `base`
 BASE_T = "@TOP@" + "/p" * PAD + "/b"  # template of `base`; the only placeholder is @TOP@ (+ @TOPREL@)
 ROOT_T = {"rw": BASE_T + "/root", "anon": BASE_T + "/root/pub",
           # nearly empty home below an otherwise empty parent: base/homes holds only bob, bob holds only `only/`
-          "sparse": BASE_T + "/homes/bob"}
+          "sparse": BASE_T + "/homes/bob",
+          # a home that does not exist, two missing directories below the existing, empty base/ghosts
+          "ghost": BASE_T + "/ghosts/deep/er/carol"}
+USER3, PASSWORD3 = "carol", "nowhere"
 USER2, PASSWORD2 = "bob", "builder"
 MAX_UPS_DESTRUCTIVE = PAD + 1
 USER, PASSWORD = "alice", "wonderland"
@@ -171,6 +176,10 @@ class Layout:
         shutil.rmtree(homes, ignore_errors=True)
         os.makedirs(os.path.join(self.real(ROOT_T["sparse"]), "only"))
         self.own(homes)
+        ghosts = os.path.join(self.base, "ghosts")
+        shutil.rmtree(ghosts, ignore_errors=True)
+        os.mkdir(ghosts)
+        self.own(ghosts)
         shutil.rmtree(self.root, ignore_errors=True)
         os.mkdir(self.root)
         for d in ROOT_DIRS:
@@ -228,6 +237,8 @@ def outside_targets(kind, rng):
         r = ROOT_T["rw"]
         t += [r, r + "/readme.txt", r + "/pub-private/secret.txt", r + "/pub-private", r + "/home/notes.txt",
               r + "/home", r + "/pub-private/" + n, r + "/" + n] * 2
+    if kind == "ghost":
+        t += [BASE_T + "/ghosts", BASE_T + "/ghosts/deep", BASE_T + "/ghosts/deep/er", BASE_T + "/ghosts/" + n] * 2
     if kind == "sparse":
         t += [BASE_T + "/homes", BASE_T + "/homes/" + n, BASE_T + "/homes/bobby", BASE_T + "/root/readme.txt"] * 2
     return t
@@ -236,6 +247,8 @@ def outside_targets(kind, rng):
 def inside_names(kind):
     if kind == "sparse":
         return ["only"]
+    if kind == "ghost":
+        return []
     names = ROOT_DIRS + ROOT_FILES
     if kind == "anon":
         names = [x[4:] for x in names if x.startswith("pub/")]
@@ -487,9 +500,42 @@ def gen_sparse(rng):
     return out
 
 
+def gen_ghost(rng):
+    """Commands for the home that does not exist (nor do the two directories above it): MKD with
+    arguments that resolve to the root itself and to paths below it, and every other verb."""
+    to_root = ["/", ".", "a/..", "./", "//", "/.", "x/y/../..", "/a/..", "././.", "a/./..", "/./", "b/../."]
+    below = ["a", "a/b", "/a", "a/b/c", "/n%d" % rng.randrange(50), "./a", "a//b", "/a/b/../c", "d/"]
+    cmds = []
+    while len(cmds) < 26:
+        r = rng.random()
+        if r < 0.34:
+            cmds.append("MKD " + rng.choice(to_root))
+        elif r < 0.58:
+            cmds.append("MKD " + rng.choice(below))
+        elif r < 0.84:
+            cmds += rng.choice([["PASV", "LIST"], ["PASV", "NLST /"], ["CWD /"], ["CWD a"], ["PWD"], ["CDUP"], ["PASV", "STOR f.txt"],
+                                ["PASV", "STOR a/f.txt"], ["RMD /"], ["RMD a"], ["RMD a/b"], ["DELE f.txt"], ["SIZE ."], ["MDTM /"],
+                                ["PASV", "RETR f.txt"], ["RNFR a", "RNTO b"], ["RNFR /", "RNTO /moved"], ["MKD a", "CWD a", "MKD ..", "MKD .", "CWD /"]])
+        else:
+            destructive = rng.random() < 0.5
+            verb = rng.choice(RW_VERBS if destructive else [v for v in RO_VERBS if v != "CWD"])
+            cmds += (["PASV"] if verb in TRANSFER else []) + [verb + " " + hostile_path(rng, "ghost", [], destructive)]
+            if verb == "RNFR":
+                cmds.append("RNTO " + hostile_path(rng, "ghost", [], True))
+    out = []
+    for c in cmds:
+        if c.split(" ")[0] in ("MKD", "RMD", "STOR", "LIST", "CWD") and rng.random() < 0.06:
+            out.append(fault_plan(rng, c.split(" ")[0]))
+        out.append(c)
+    return out
+
+
 def gen_session(rng, index, nshards):
     r = rng.random()
     kind = "sparse" if r < 0.15 else "anon" if r < 0.45 else "rw"
+    if rng.random() < 0.08:
+        return {"case": index, "user": "ghost", "reactor": REACTORS[index % len(REACTORS)],
+                "commands": ["USER " + USER3, "PASS " + PASSWORD3] + gen_ghost(rng) + ["QUIT"]}
     if kind == "sparse":
         return {"case": index, "user": kind, "reactor": REACTORS[index % len(REACTORS)],
                 "commands": ["USER " + USER2, "PASS " + PASSWORD2] + gen_sparse(rng) + ["QUIT"]}
@@ -788,7 +834,8 @@ class Server:
         cfg = {"reactor": reactor, "top": layout.top, "selftest_unconfined": bool(os.environ.get("C54_SELFTEST_UNCONFINED")),
                "rw_root": layout.root, "anon_root": layout.real(ROOT_T["anon"]), "out": self.out,
                "cwd": os.path.join(layout.top, "cwd"), "user": USER, "password": PASSWORD,
-               "user2": USER2, "password2": PASSWORD2, "sparse_root": layout.real(ROOT_T["sparse"]), "token": self.token, "lifetime": 1500}
+               "user2": USER2, "password2": PASSWORD2, "sparse_root": layout.real(ROOT_T["sparse"]),
+               "user3": USER3, "password3": PASSWORD3, "ghost_root": layout.real(ROOT_T["ghost"]), "token": self.token, "lifetime": 1500}
         script = os.path.join(os.path.dirname(os.path.abspath(__file__)), "c54_server.py")
         self.errf = open(self.err, "wb")
         self.proc = subprocess.Popen([sys.executable, "-B", "-X", "faulthandler", "-W", "ignore", script, json.dumps(cfg)],
@@ -889,6 +936,10 @@ class Play:
         verb = verb.upper()
         ctx.count("cmd_" + verb)
         ctx.count("reply_%dxx" % (codes[-1] // 100))
+        if verb == "MKD" and self.sess["user"] == "ghost":
+            ctx.count("mkd_with_root_and_its_parents_missing")
+            if vsegs(self.cwd, arg) == []:
+                ctx.count("mkd_of_the_missing_root_itself")
         # mirror of the login state / cwd: used for counters (escape attempts) only
         if verb == "PASS" and codes[-1] == 230:
             self.authed, self.cwd = True, []
@@ -1123,7 +1174,7 @@ def judge(ctx, layout, sessions, records, log):
             ctx.violation("outside-tree-modified", "the tree outside the shell root changed during an FTP session",
                           {**base(s), "root": ROOT_T[s["user"]], "changed(before,after)": rec["outside_diff"],
                            "replies": rec["replies"][-10:]})
-        if (rec["attempts"] and pc["inside"] > 0) or (s["user"] == "sparse" and pc["rmdir"] > 0):
+        if (rec["attempts"] and pc["inside"] > 0) or (s["user"] == "sparse" and pc["rmdir"] > 0) or (s["user"] == "ghost" and pc["inside"] > 0):
             ctx.distinct(tuple(s["commands"]))
         ctx.sample({"case": s["case"], "reactor": s["reactor"], "user": s["user"], "commands": s["commands"][:14],
                     "replies": rec["replies"][:14], "escape_attempts": len(rec["attempts"]),
